@@ -282,7 +282,7 @@ func (a *An) c08Lifecycle(rule string) {
 		}
 		fld := a.MustField("Conversation", "ake")
 		for _, st := range a.DirectStoresTo(fld) {
-			if st.Parent() == f && isNilConst(st.Val) {
+			if a.C.within(st, f) && isNilConst(st.Val) {
 				a.GateLocal(rule, name+"|ake-wiped-before-drop", st, "dropping the exchange context", "called:(*ake).wipe[Conversation.ake]")
 			}
 		}
@@ -313,7 +313,7 @@ func (a *An) c08Lifecycle(rule string) {
 	if f := a.MustFn("(*Conversation).akeHasFinished"); f != nil {
 		fld := a.MustField("Conversation", "keys")
 		for _, st := range a.DirectStoresTo(fld) {
-			if st.Parent() != f {
+			if !a.C.within(st, f) {
 				continue
 			}
 			a.GateLocal(rule, "akeHasFinished|old-keys-wiped", st, "installing the new session keys", "called:(*keyManagementContext).wipe[Conversation.keys]")
@@ -372,7 +372,7 @@ func (a *An) c08Lifecycle(rule string) {
 	}
 	if f := a.MustFn("(*Conversation).setSecretExponent"); f != nil {
 		for _, st := range a.DirectStoresTo(a.MustField("ake", "secretExponent")) {
-			if st.Parent() == f {
+			if a.C.within(st, f) {
 				a.TermIs(rule, "setSecretExponent|copy", "the context keeps its own copy", st, st.Val, "createSecretKeyValue($val)")
 			}
 		}
@@ -381,7 +381,7 @@ func (a *An) c08Lifecycle(rule string) {
 	if f := a.MustFn("(*keyManagementContext).generateNewDHKeyPair"); f != nil {
 		prev := a.MustField("keyManagementContext", "ourPreviousDHKeys")
 		for _, st := range a.DirectStoresTo(prev) {
-			if st.Parent() == f {
+			if a.C.within(st, f) {
 				a.TermIs(rule, "generateNewDHKeyPair|move", "the current pair becomes the previous pair (same object, no copy)", st, st.Val, "keyManagementContext.ourCurrentDHKeys")
 				a.GateLocal(rule, "generateNewDHKeyPair|previous-wiped", st, "overwriting the previous pair", "called:(*dhKeyPair).wipe[keyManagementContext.ourPreviousDHKeys]")
 			}
